@@ -172,3 +172,39 @@ _nd.name = 'dtw.distance#ndim'
 _nd.cases = nd_cases()
 _nd.props = ('C11', 'C01')
 _CT['dtw.distance#ndim'] = _nd
+
+
+# ---------------------------------------------------------------------------------------------
+# dtw.warping_paths, second stage: end-of-series psi relaxation (value selection by argmin over the
+# reversed last column / last row), without the -1 marking (psi_neg=False), with and without the
+# internal representation.  This is the configuration SubsequenceAlignment (C13) uses.
+_wp = _copy.copy(_CT['dtw.warping_paths'])
+_wp.name = 'dtw.warping_paths#endpsi'
+_wp.params = dict(_CT['dtw.warping_paths'].params, keep_int_repr='bool', psi_neg=('const', False))
+_wp.cases = [c for c in kw_cases() if c['psi'] == 'psi4']
+_RES = 'Dend(%s, %s)' % (P1E, P2E)
+_wp.requires = ['%s >= 1' % R, '%s >= 1' % C, 'kwargs["window"] is None or kwargs["window"] >= 1',
+                '%s <= %s' % (P1E, R), '%s <= %s' % (P2E, C), '%s <= %s' % (P1B, R), '%s <= %s' % (P2B, C),
+                'kwargs["penalty"] is None or kwargs["penalty"] >= 0',
+                'kwargs["max_length_diff"] is None',
+                'not (%s == %s and %s == %s)' % (P2E, C, P1B, R), 'not (%s == %s and %s == %s)' % (P1E, R, P2B, C)]
+_wp.ensures = [
+    'implies(keep_int_repr, result[0] == %s)' % _RES,
+    'implies(not keep_int_repr, result[0] == vsqrt_if(%s, %s))' % (METRIC, _RES),
+    'implies(keep_int_repr, forall(lambda a, b: implies(0 <= a <= %s and 0 <= b <= %s, result[1][a, b] == W(a, b))))' % (R, C),
+    'implies(not keep_int_repr, forall(lambda a, b: implies(0 <= a <= %s and 0 <= b <= %s, result[1][a, b] == vsqrt_if(%s, W(a, b)))))'
+    % (R, C, METRIC),
+]
+_wp.lemmas = ['ArgMinRow', 'ArgMinCol', 'ArgMinRowSqrt', 'ArgMinColSqrt', 'PsiColZero', 'RowLeadInf', 'RowAllInf']
+_wp.theories = tuple(_CT['dtw.warping_paths'].theories) + ('sqrtmono',)
+_PC, _WR = 'PsiCol(psi_1e, r)', 'WRowMin(r, c - psi_2e, c + 1)'
+_wp.hints = {'vc_mic = vc[mic]': [
+    # instances of the monotonicity of the square root for the two candidates (ghost assertions: proved, then used)
+    'implies(not (%s < %s), not (vsqrt(%s) < vsqrt(%s)))' % (_PC, _WR, _PC, _WR),
+    'implies(not (%s < %s), not (vsqrt(%s) < vsqrt(%s)))' % (_WR, _PC, _WR, _PC)]}
+_wp.hints['vc_mic = vc[mic]'] = _wp.hints['vc_mic = vc[mic]'] + [
+    'implies(not keep_int_repr and %s == 0 and psi_1e != 0, vr_mir == vsqrt(%s))' % (METRIC, _PC)]
+for _k in ('d = vr_mir', 'd = vc_mic'):
+    _wp.hints[_k] = ['implies(not keep_int_repr and %s == 0 and psi_2e != 0, vc_mic == vsqrt(%s))' % (METRIC, _WR)]
+_wp.props = ('C04', 'C13')
+_CT['dtw.warping_paths#endpsi'] = _wp
